@@ -498,6 +498,9 @@ class ExprMixin(object):
                 return z3.IntVal(int(txt)), z3.BoolVal(str(int(txt)) == txt)
             except ValueError:
                 return z3.IntVal(0), z3.BoolVal(False)
+        # ground facts about the decimal notation of the one-digit numbers (instances of istr/sint being str()/int())
+        for k in range(10):
+            self.assumes.append(And(istr(z3.IntVal(k)) == z3.StringVal(str(k)), sint(z3.StringVal(str(k))) == k))
         return sint(s), istr(sint(s)) == s
 
     def e_JoinedStr(self, st, e):
@@ -889,6 +892,11 @@ class ExprMixin(object):
             return V(t, es)
         if h is not None and h.kind == 'dict':
             r = Val.r(base.t)
+            for gt, formulas in getattr(self, 'generalized_keys', []):
+                # loop invariants generalised over a ghost key hold for the key that is read here
+                if gt.sort() == idx.t.sort():
+                    for f in formulas:
+                        self.assumes.append(z3.substitute(f, (gt, idx.t)))
             t = self.dict_get(st, r, idx.t)
             self.raise_exit(st, KeyError, t == ABSENT, line)
             es = h.elem_for_key(self.const_str(idx)) if isinstance(idx, V) else h.elem
